@@ -183,7 +183,9 @@ func runDebugTerms(spec string) int {
 		fmt.Println("no such function")
 		return 2
 	}
-	paths, over := collectTermPaths(c, termSpec{Fn: fn, MaxVisit: 6, })
+	paths, over := collectTermPaths(c, termSpec{Fn: fn, MaxVisit: 12, BitCallee: func(cal *ssa.Function) bool {
+		return cal.Name() == "Decode" || cal.Name() == "DecodeBit" || cal.Name() == "DirectDecodeBit"
+	}})
 	fmt.Println("paths", len(paths), "overflow", over)
 	for i, p := range paths {
 		fmt.Println("--- path", i)
@@ -282,4 +284,8 @@ func init() {
 		ruleInitClosures(c, r, "")
 		ruleDashDash(c, r, "")
 	}
+}
+
+func init() {
+	debugRules["sibcodec"] = func(c *Ctx, r *Report) { ruleCodecSiblings(c, r, "") }
 }
